@@ -28,6 +28,15 @@ import (
 
 func init() { ndnlog.SetLevel(ndnlog.FatalLevel) } // log text is not an observable
 
+// ScrambleSeed decorrelates consecutive seeds (common.NewRand streams of seeds s and s+1 are the
+// same stream shifted by one draw; the check driver uses consecutive seeds for thorough batches).
+func ScrambleSeed(seed uint64) uint64 {
+	z := seed + 0x9E3779B97F4A7C15
+	z = (z ^ (z >> 30)) * 0xBF58476D1CE4E5B9
+	z = (z ^ (z >> 27)) * 0x94D049BB133111EB
+	return z ^ (z >> 31)
+}
+
 // ---------------------------------------------------------------- harness engine
 
 // Cmd is one recorded management command.
@@ -160,6 +169,9 @@ type Sim struct {
 }
 
 const Network = "/verif"
+
+// SpecInfinity is the protocol's infinity metric (dv/SPEC.md), hard-wired like in the Lean specs.
+const SpecInfinity = 16
 
 func RouterName(i int) string { return fmt.Sprintf("%s/r%d", Network, i) }
 
@@ -316,6 +328,11 @@ func (s *Sim) DumpRib(u int) string {
 	for _, e := range rib.Entries() {
 		d := s.IdxOfName(e.Name())
 		fes := rib.GetFibEntries(nu.R.VerifNeighbors(), e.Name().Hash())
+		for i := range fes {
+			if fes[i].Cost >= SpecInfinity {
+				fes[i].FaceId = 0 // which hop carries an infinite cost is not an observable
+			}
+		}
 		ent = append(ent, fmt.Sprintf("%s:%d:%d:%d:%d", idx(d), fes[0].FaceId, fes[0].Cost, fes[1].FaceId, fes[1].Cost))
 	}
 	sort.Strings(ent)
